@@ -38,11 +38,12 @@ def solve(A, b, Delta):
     # Check for the hard case
     if minSig < eps and norm(bv/(sig+lam)) < Delta:
         p = -v@(bv/(sig+lam))
-        z = v[0]
+        z = v[:,0]
         pz = p@z
         pp = p@p
         ddmpp = Delta*Delta-pp
-        tau = ddmpp / (pz + np.sign(pz)*np.sqrt(pz*pz + ddmpp))
+        sgn = np.where(pz < 0, -1.0, 1.0) # sign(0) would make this 0/0 when p is exactly orthogonal to z
+        tau = ddmpp / (pz + sgn*np.sqrt(pz*pz + ddmpp))
         return p + tau * z
 
     pNormSq = pnorm_squared(bvv, sig+lam)
